@@ -488,40 +488,35 @@ Proof.
     + eapply IH; eauto. simpl. rewrite Exy. exact L.
 Qed.
 
-Lemma declare_params_scope : forall ps G G', declare_params ps G = Ok G' ->
-  G <> [] -> exists s' G0 s, G = s :: G0 /\ G' = s' :: G0.
+Lemma declare_shape : forall x b G G', declare x b G = Ok G' ->
+  exists s G0, G' = ((x, b) :: s) :: G0.
 Proof.
-  induction ps as [|[[y v] t] ps IH]; intros G G' D N.
-  - inversion D; subst. destruct G' as [|s G0]; [congruence|]. eauto.
-  - simpl in D. destruct G as [|s G0]; [congruence|]. simpl in D.
-    destruct (lookup_scope y s); [discriminate|]. simpl in D.
-    apply IH in D; [|discriminate]. destruct D as [s' [G1 [s1 [E1 E2]]]]. inversion E1; subst. eauto.
+  intros x b [|s G0] G' H; simpl in H.
+  - inversion H; eauto.
+  - destruct (lookup_scope x s); inversion H; eauto.
 Qed.
 
 Section Params.
 Variable genv : Eval.env.
 
 Lemma params_env_ok : forall S ps Gf G' cs penv cenv,
-  declare_params ps Gf = Ok G' -> Gf <> [] ->
+  declare_params ps Gf = Ok G' ->
   bind_params ps cs = Some penv ->
   Forall2 (fun c p => nth_error S c = Some (cty_of (snd p))) cs ps ->
   env_ok genv S Gf cenv -> env_ok genv S G' (penv ++ cenv).
 Proof.
-  intros S ps. induction ps as [|[[y v] t] ps IH]; intros Gf G' cs penv cenv D N B T He.
+  intros S ps. induction ps as [|[[y v] t] ps IH]; intros Gf G' cs penv cenv D B T He.
   - destruct cs; inversion B; subst. inversion D; subst. exact He.
   - destruct cs as [|c cs]; [discriminate|]. simpl in B.
     destruct (bind_params ps cs) as [pe|] eqn:E; [|discriminate]. inversion B; subst. clear B.
     inversion T; subst. simpl in H2.
     simpl in D. destruct (declare y (cty_of t, if v then KVar else KConst) Gf) as [G1|] eqn:D1; [|discriminate].
     simpl in D.
-    assert (N1 : G1 <> []).
-    { destruct Gf; [congruence|]. simpl in D1. destruct (lookup_scope y l); inversion D1. discriminate. }
     assert (He1 : env_ok genv S G1 ((y, c) :: cenv)) by (eapply env_ok_declare; eauto).
-    pose proof (IH G1 G' cs pe ((y, c) :: cenv) D N1 E H4 He1) as He2.
+    pose proof (IH G1 G' cs pe ((y, c) :: cenv) D E H4 He1) as He2.
     (* y is not rebound by the remaining parameters *)
     assert (Hy : Eval.lookup y pe = None).
-    { destruct Gf as [|s G0]; [congruence|]. simpl in D1.
-      destruct (lookup_scope y s) eqn:Ly; [discriminate|]. inversion D1; subst.
+    { destruct (declare_shape _ _ _ _ D1) as [s [G0 ->]].
       eapply declare_params_fresh; eauto. simpl. rewrite N.eqb_refl. reflexivity. }
     intros x t' k' L. destruct (He2 x t' k' L) as [c' [L1 L2]]. exists c'. split; auto.
     unfold lookup_var in *. simpl. rewrite lookup_app in L1.
